@@ -36,8 +36,9 @@ func mountedPathToCaller(p, name, mountSubPath string) string {
 	case strings.HasSuffix(mountSubPath, "/"+name):
 		// sub-directory view: mountSubPath is base/name, strip base
 		base := strings.TrimSuffix(mountSubPath, "/"+name)
-		if p == base {
-			// the failing path is the base directory itself (e.g. it is not a directory): the root of the view
+		if p == base || strings.HasPrefix(base, p+"/") {
+			// the failing path is the base directory itself or one of its ancestors (e.g. one of them is not a
+			// directory): nothing below the view can name it, the closest name is the root of the view
 			return "."
 		}
 		return strings.TrimPrefix(p, base+"/")
